@@ -234,22 +234,31 @@ def flushFuel (m : M D) : Nat := 2 * m.slots.length + 3
 
 /-! ### `*_ctx_base.c` — synchronous reference family -/
 
+/-- first part of `sha*_update` of the base file: top up / complete the carried partial block.
+    Returns the context and the bytes of `data` not yet consumed. -/
+def baseTopUp (A : Alg D) (x : Ctx D) (data : Bytes) : Ctx D × Bytes :=
+  if x.part ≠ [] ∨ data.length < A.B then
+    let copy := min (A.B - x.part.length) data.length
+    let x := if copy ≠ 0 then { x with part := x.part ++ data.take copy } else x
+    let rem := if copy ≠ 0 then data.drop copy else data
+    if A.B ≤ x.part.length then ({ x with dig := A.f x.dig x.part, part := [] }, rem) else (x, rem)
+  else (x, data)
+
+/-- second part: hash the whole blocks of what is left when no partial block is carried -/
+def baseBody (A : Alg D) (p : Ctx D × Bytes) : Ctx D × Bytes :=
+  if p.1.part = [] then
+    let n := p.2.length / A.B
+    ({ p.1 with dig := (blocks A.B n p.2).foldl A.f p.1.dig }, p.2.drop (n * A.B))
+  else p
+
+/-- third part: keep the remainder as the new partial block -/
+def baseStash (p : Ctx D × Bytes) : Ctx D :=
+  if p.2 ≠ [] then { p.1 with part := p.2 } else p.1
+
 /-- `sha*_update` of the base file -/
 def baseUpdate (A : Alg D) (x : Ctx D) (data : Bytes) : Ctx D :=
   let x := { x with total := (x.total + data.length) % 2^64 }
-  let (x, rem) :=
-    if x.part ≠ [] ∨ data.length < A.B then
-      let copy := min (A.B - x.part.length) data.length
-      let x := if copy ≠ 0 then { x with part := x.part ++ data.take copy } else x
-      let rem := if copy ≠ 0 then data.drop copy else data
-      if A.B ≤ x.part.length then ({ x with dig := A.f x.dig x.part, part := [] }, rem) else (x, rem)
-    else (x, data)
-  let (x, rem) :=
-    if x.part = [] then
-      let n := rem.length / A.B
-      ({ x with dig := (blocks A.B n rem).foldl A.f x.dig }, rem.drop (n * A.B))
-    else (x, rem)
-  let x := if rem ≠ [] then { x with part := rem } else x
+  let x := baseStash (baseBody A (baseTopUp A x data))
   { x with processing := false, last := false, complete := false }
 
 /-- `sha*_final` of the base file (its own padding code, not `hash_pad`) -/
@@ -266,19 +275,21 @@ def baseInit (A : Alg D) (x : Ctx D) : Ctx D :=
   { x with dig := A.init, total := 0, part := [], error := 0, processing := true, last := false,
            complete := false }
 
+/-- the context after an accepted submit of the base family -/
+def baseAccepted (A : Alg D) (x : Ctx D) (data : Bytes) (flags : Nat) : Ctx D :=
+  -- `ctx->error = ISAL_HASH_CTX_ERROR_NONE` once the three tests have passed (fix F16)
+  let x : Ctx D := { x with error := 0 }
+  match flags with
+  | 1 => baseUpdate A (baseInit A x) data
+  | 0 => baseUpdate A x data
+  | 2 => baseFinal A (baseUpdate A x data)
+  | _ => baseFinal A (baseUpdate A (baseInit A x) data)
+
 def baseSubmit (A : Alg D) (m : M D) (c : Cid) (data : Bytes) (flags : Nat) : M D × Option Cid :=
   let x := m.ctxs c
   if flags / 4 ≠ 0 then (setCtx m c { x with error := errInvalidFlags }, some c)
   else if x.processing ∧ flags = 3 then (setCtx m c { x with error := errAlreadyProcessing }, some c)
   else if x.complete ∧ flags % 2 = 0 then (setCtx m c { x with error := errAlreadyCompleted }, some c)
-  else
-    -- `ctx->error = ISAL_HASH_CTX_ERROR_NONE` once the three tests have passed (fix F16)
-    let x : Ctx D := { x with error := 0 }
-    let x' := match flags with
-      | 1 => baseUpdate A (baseInit A x) data
-      | 0 => baseUpdate A x data
-      | 2 => baseFinal A (baseUpdate A x data)
-      | _ => baseFinal A (baseUpdate A (baseInit A x) data)
-    (setCtx m c x', some c)
+  else (setCtx m c (baseAccepted A x data flags), some c)
 
 end IsalVerif.HashMB
